@@ -192,14 +192,14 @@ PROPS = {
     ),
     'C15': dict(
         level='proof',
-        units=['nameglob:*VECTOR.*', 'nameglob:LIST.NEIGHBOR*', 'path:list::load_items'],
+        units=['nameglob:*VECTOR.*', 'nameglob:LIST.NEIGHBOR*', 'path:list::load_items', 'name:CODE.LIST', 'name:CODE.APPEND', 'name:CODE.CONS', 'name:CODE.INSERT', 'name:CODE.SUBST', 'name:EXEC.S', 'name:EXEC.Y'],
         classes=['post'],
-        label_re=r'bound\.alloc|at-most-one-item-per-id',
+        label_re=r'bound\.alloc|bound\.points|at-most-one-item-per-id',
         explanation='the expressible part of C15: every vector a step creates is no longer than the vector operands it consumed plus the number of scalar operands plus one '
                     '(bound.alloc clauses: element-wise operations, NOT, APPEND, SET*INSERT, FROMINT, load_items) -- i.e. allocation is bounded by the state, not by operand magnitude; '
-                    'ONES / ZEROS / RAND / SINE / LIST.NEIGHBOR*IDS vectors are sized by an INTEGER operand by design: one known finding each',
+                    'ONES / ZEROS / RAND / SINE / LIST.NEIGHBOR*IDS vectors are sized by an INTEGER operand by design: one known finding each; bound.points clauses: an instruction that builds a CODE/EXEC item (CODE.LIST/APPEND/CONS/INSERT/SUBST, EXEC.S/Y) must not create one above max_points_in_program unless it is no bigger than an operand -- the limit is consulted nowhere: one known finding each (growth to 2047 points measured natively)',
         not_decided=['peak RSS, wall-clock time and host stack depth of a step: not expressible as a contract',
-                     'no CODE/EXEC item grows beyond max_points_in_program: the limit is consulted nowhere (CODE.APPEND/LIST/CONS, EXEC.S/Y, LIST.ADD ... grow items freely); not encoded as obligations',
+                     'LIST.ADD / LIST.SET records and the loop re-arm lists also build items without a points check; no bound.points clause is stated for them',
                      'LIST.NEIGHBOR*BVALS/IVALS/FVALS: the pushed vector is proved no longer than the CODE stack is deep, but the neighbourhood they compute on the way (find_neighbors) is as large as the size operand, like NEIGHBOR*IDS (known finding)'],
     ),
 }
